@@ -31,12 +31,12 @@ def _body():
 
 
 def build(params, ret, ARR, tc, style="function", order=None, category="Float", names=None,
-          anns=None, defaults=None):
+          anns=None, defaults=None, stringify=False):
     """params: list of dim strings (or None for un-annotated); ret: dim string or None.
     order: declaration order (list of indices).  Returns (callable, pnames).
     `anns` (optional): explicit annotation objects per parameter instead of dim strings."""
     key = (tuple(params), ret, ARR, tc, style, tuple(order or ()), category, tuple(names or ()),
-           tuple(id(a) for a in (anns or ())), tuple(sorted((k, id(v)) for k, v in (defaults or {}).items())))
+           tuple(id(a) for a in (anns or ())), tuple(sorted((k, id(v)) for k, v in (defaults or {}).items())), stringify)
     if key in _cache:
         return _cache[key]
     import jaxtyping as jt
@@ -53,7 +53,8 @@ def build(params, ret, ARR, tc, style="function", order=None, category="Float", 
         g["R"] = ret if not isinstance(ret, str) else cat[ARR, ret]
 
     def ann(i):
-        a = f": A{i}" if f"A{i}" in g else ""
+        # stringify: annotations are written as strings (as with `from __future__ import annotations`)
+        a = (f": 'A{i}'" if stringify else f": A{i}") if f"A{i}" in g else ""
         if defaults and i in defaults:
             g[f"DFLT{i}"] = defaults[i]
             a += f" = DFLT{i}"
@@ -61,7 +62,8 @@ def build(params, ret, ARR, tc, style="function", order=None, category="Float", 
 
     if style == "function":
         args = ", ".join(f"{pnames[i]}{ann(i)}" for i in order)
-        src = f"def f({args}){' -> R' if ret is not None else ''}:\n    return _body()\n"
+        rann = (" -> 'R'" if stringify else " -> R") if ret is not None else ""
+        src = f"def f({args}){rann}:\n    return _body()\n"
         exec(src, g)
         fn = g["f"]
         fn.__module__ = "verif_generated"
